@@ -222,6 +222,8 @@ func TestTableLoopControl(t *testing.T) {
 					continue
 				}
 				c := Case{ProgCase: px.ProgCase{Modules: map[string]string{"main": loopCtl[name]}, Entry: "main", Limits: sb.DefaultLimits(), Note: "loop control " + name}, Seed: seed, Passes: passes}
+				c.Via = []string{"", "transform", "", "generator"}[s%4]
+				pk.Class("via:" + c.Via)
 				pk.Eval()
 				pk.Class("loopctl:" + name)
 				fl := checkVariants(c)
